@@ -372,6 +372,9 @@ func runC01(c *Ctx) {
 		tieDiff[vr] = true
 		r.Mismatch("spec", vr.Case.Src+" ["+vr.Case.Mode.String()+"] env="+valSx(envVal(vr.Case)).String()+" tree="+vr.Case.B.TreeSx, spec, real)
 	})
+	if r.Counters["vm:typedmap:ok"] == 0 || r.Counters["vm:typedmap:err"] == 0 {
+		r.Mismatch("generator", "typed maps (MI, MS, MN)", "no run over a typed map member", fmt.Sprintf("ok=%d err=%d", r.Counters["vm:typedmap:ok"], r.Counters["vm:typedmap:err"]))
+	}
 	negZeroAliasProbe(c)
 	// end to end through ALL model stages: source text -> lexer, parser, compiler, VM models vs expr.Eval
 	EvalSourceCorrespondence(c, cases, 1000)
